@@ -474,11 +474,13 @@ pub fn run(ctx: &Ctx) {
     // a third of the shards: an application of eight worker threads blocked in recv
     let workers = ctx.shard % 3 == 1;
     let ndisp = if workers { 8 } else { 1 };
-    let mut env = Env::new(false, ndisp);
+    // a quarter of the shards talk to a UNIX-socket listener
+    let unix = ctx.shard % 4 == 2;
+    let mut env = Env::new(unix, ndisp);
     let mut idx = 0u64;
     while ctx.time_left() {
         if env.cases_run >= 2000 {
-            env = Env::new(false, ndisp);
+            env = Env::new(unix, ndisp);
         }
         run_trial(ctx, &env, ctx.case_seed(idx), workers);
         env.cases_run += 1;
@@ -488,5 +490,6 @@ pub fn run(ctx: &Ctx) {
         }
     }
     ctx.rep.set_extra("perturbation", J::s(format!("{} fp_delay_permille={}", pert.desc, permille)));
+    ctx.rep.inc(if unix { "shards_on_unix_socket" } else { "shards_on_tcp" });
     ctx.rep.set_extra("failpoints", J::O(crate::env::fp_hits().into_iter().map(|(k, v)| (k, J::I(v as i64))).collect()));
 }
